@@ -86,6 +86,12 @@ impl XmlConverter {
                         }
                     } else if let Val::Str(s) = val.as_ref() {
                         ns = Some(("", s));
+                    } else if !val.is_empty() {
+                        return Err(BuildError::new(
+                            "XML ns field must be a string, a tuple or NULL",
+                            ErrorType::TypeFail,
+                        )
+                        .to_boxed());
                     }
                 }
                 if field.as_ref() == "attrs" {
